@@ -30,13 +30,15 @@ class HarnessError(Exception):
 
 
 class Result:
-    __slots__ = ("failures", "labels", "nontrivial", "sample", "trivial_reason")
+    __slots__ = ("failures", "labels", "nontrivial", "sample", "trivial_reason", "extra_evaluations", "extra_nontrivial")
 
     def __init__(self, failures=None, labels=None, nontrivial=False, sample=None):
         self.failures = list(failures or [])      # [(bucket key, detail)]
         self.labels = list(labels or [])
         self.nontrivial = bool(nontrivial)
         self.sample = sample
+        self.extra_evaluations = 0        # sub-cases evaluated inside this case (e.g. enumerated mutants)
+        self.extra_nontrivial = []        # digests of the non-trivial ones among them
 
     def fail(self, key, detail=""):
         self.failures.append((key, str(detail)[:2000]))
@@ -118,7 +120,8 @@ class Collector:
         return None
 
     def record(self, case, res):
-        self.evaluations += 1
+        self.evaluations += 1 + res.extra_evaluations
+        self.nontrivial.update(res.extra_nontrivial)
         for lab in res.labels:
             self.labels[lab] += 1
         if res.nontrivial:
